@@ -29,7 +29,7 @@ use fxhash::FxBuildHasher;
 use qbice::serialize::{
     Decode, Decoder, Encode, Encoder, Plugin, PostcardDecoder, PostcardEncoder, session::Session,
 };
-use qbice::stable_hash::{BuildStableHasherDefault, Sip128Hasher, StableHash, StableHasher};
+use qbice::stable_hash::{BuildStableHasherDefault, Compact128, Sip128Hasher, StableHash, StableHasher};
 use qbice::stable_type_id::{Identifiable, StableTypeID};
 use qbice::storage::intern::{Interned, Interner};
 use serde_json::{Value as J, json};
@@ -54,7 +54,7 @@ named_enum!(Leaf {
     AtBool, AtI8, AtI16, AtI32, AtI64, AtIsize, AtU8, AtU16, AtU32, AtU64, AtUsize,
     CellU32, CellI64, CellBool, CellPair,
     UnitStruct, Named, TupleStruct, Enum, BigEnum,
-    IStr, IPath, IString,
+    IStr, IPath, IString, IW,
     BvUsizeLsb0, BvU8Lsb0, BvU8Msb0, BvU16Lsb0, BvU32Msb0, BvU64Lsb0,
 });
 
@@ -133,6 +133,8 @@ pub enum V {
     HandleStr(Interned<str>),
     HandlePath(Interned<Path>),
     HandleString(Interned<String>),
+    /// `Interned<W>`: a derived new-type of `String` (hashes like `String` and like `str`)
+    HandleW(Interned<W>),
     /// produced by the decode side when a non-representable condition is seen
     /// (e.g. a skipped field that is not `Default`): never equal to an input
     Bad(String),
@@ -165,6 +167,14 @@ impl StableHash for Dyn {
 
 #[derive(qbice::Encode, qbice::Decode, Debug, Clone, PartialEq)]
 pub struct UnitS;
+
+/// A new-type of `String`, everything derived.  Its derived `StableHash` hashes
+/// the single field, so `W(s)`, `s: String` and `*s: str` have the SAME 128-bit
+/// content hash under three different `STABLE_TYPE_ID`s (checked on the real
+/// hasher by `hash_collisions`): interned handles of these types must never
+/// share an entry of the encode session's `seen` set.
+#[derive(qbice::StableHash, qbice::Identifiable, qbice::Encode, qbice::Decode, Debug, Clone, PartialEq, Eq, PartialOrd, Ord, Hash)]
+pub struct W(pub String);
 
 #[derive(qbice::Encode, qbice::Decode, Debug, Clone, PartialEq)]
 pub struct NamedS {
@@ -276,12 +286,34 @@ thread_local! {
     static DEC_CALLS: Cell<u64> = const { Cell::new(0) };
     static SR_ENC: RefCell<Vec<u8>> = const { RefCell::new(Vec::new()) };
     static SR_DEC: RefCell<Vec<u8>> = const { RefCell::new(Vec::new()) };
+    /// the World's byte buffer and read position (the codecs are unbuffered): lets the
+    /// harness see the tag byte (0 = inline, 1 = reference) a leaf handle wrote / read
+    static IO: RefCell<Option<(Rc<RefCell<Vec<u8>>>, Rc<Cell<usize>>)>> = const { RefCell::new(None) };
+    /// handle occurrences of the top-level value being encoded, in encode (= decode) order:
+    /// (type tag, content hash by the interner's real hasher)
+    static ENC_OCC: RefCell<Vec<(u8, Compact128)>> = const { RefCell::new(Vec::new()) };
+}
+
+pub const OCC_TYPES: [&str; 6] = ["Dyn", "[Dyn]", "str", "Path", "String", "W"];
+fn occ_push<T: StableHash + ?Sized>(p: &Plugin, tag: u8, v: &T) {
+    if let Some(i) = p.get::<Interner>() { let h = i.hash_128(v); ENC_OCC.with(|c| c.borrow_mut().push((tag, h))); }
+}
+pub fn take_enc_occ() -> Vec<(u8, Compact128)> { ENC_OCC.with(|c| std::mem::take(&mut *c.borrow_mut())) }
+
+fn io_wlen() -> Option<usize> { IO.with(|c| c.borrow().as_ref().map(|(b, _)| b.borrow().len())) }
+fn io_rpos() -> Option<usize> { IO.with(|c| c.borrow().as_ref().map(|(_, r)| r.get())) }
+fn io_byte(i: usize) -> Option<u8> { IO.with(|c| c.borrow().as_ref().and_then(|(b, _)| b.borrow().get(i).copied())) }
+/// log S/R of a leaf handle (`Interned<str|String|W|Path|[T]>`) from the tag byte at `at`
+fn sr_leaf(log: &'static std::thread::LocalKey<RefCell<Vec<u8>>>, idx: usize, at: Option<usize>) {
+    let c = match at.and_then(io_byte) { Some(0) => b'S', Some(1) => b'R', _ => b'?' };
+    log.with(|l| { if let Some(x) = l.borrow_mut().get_mut(idx) { *x = c; } });
 }
 
 pub fn reset_tls() {
     CTX.with(|c| c.borrow_mut().clear());
     SR_ENC.with(|c| c.borrow_mut().clear());
     SR_DEC.with(|c| c.borrow_mut().clear());
+    ENC_OCC.with(|c| c.borrow_mut().clear());
 }
 
 pub fn take_sr_enc() -> String { SR_ENC.with(|c| String::from_utf8(std::mem::take(&mut *c.borrow_mut())).unwrap()) }
@@ -498,9 +530,19 @@ impl Encode for Dyn {
                 Leaf::TupleStruct => to_tuples(self)?.encode(e, p, s),
                 Leaf::Enum => to_en(self)?.encode(e, p, s),
                 Leaf::BigEnum => to_big(self)?.encode(e, p, s),
-                Leaf::IStr => if let V::HandleStr(h) = &self.v { h.encode(e, p, s) } else { Err(bad("IStr")) },
-                Leaf::IPath => if let V::HandlePath(h) = &self.v { h.encode(e, p, s) } else { Err(bad("IPath")) },
-                Leaf::IString => if let V::HandleString(h) = &self.v { h.encode(e, p, s) } else { Err(bad("IString")) },
+                Leaf::IStr | Leaf::IPath | Leaf::IString | Leaf::IW => {
+                    let idx = sr_open(&SR_ENC);
+                    let at = io_wlen();
+                    let r = match (l, &self.v) {
+                        (Leaf::IStr, V::HandleStr(h)) => { occ_push::<str>(p, 2, h); h.encode(e, p, s) }
+                        (Leaf::IPath, V::HandlePath(h)) => { occ_push::<Path>(p, 3, h); h.encode(e, p, s) }
+                        (Leaf::IString, V::HandleString(h)) => { occ_push::<String>(p, 4, h); h.encode(e, p, s) }
+                        (Leaf::IW, V::HandleW(h)) => { occ_push::<W>(p, 5, h); h.encode(e, p, s) }
+                        _ => Err(bad(format!("handle leaf {}", l.name()))),
+                    };
+                    sr_leaf(&SR_ENC, idx, at);
+                    r
+                }
                 #[cfg(feature = "extras")]
                 Leaf::BvUsizeLsb0 => to_bv::<usize, bitvec::order::Lsb0>(self.bits()?).encode(e, p, s),
                 #[cfg(feature = "extras")]
@@ -562,12 +604,20 @@ impl Encode for Dyn {
                 Un::Triple => { let k = self.seqn(3)?; (k[0].clone(), k[1].clone(), k[2].clone()).encode(e, p, s) }
                 Un::Interned => if let V::Handle(h) = &self.v {
                     let idx = sr_open(&SR_ENC);
+                    occ_push::<Dyn>(p, 0, h);
                     let before = ENC_CALLS.with(|c| c.get());
                     let r = h.encode(e, p, s);
                     sr_close(&SR_ENC, idx, ENC_CALLS.with(|c| c.get()) != before);
                     r
                 } else { Err(bad("Handle")) },
-                Un::InternedSlice => if let V::HandleSlice(h) = &self.v { h.encode(e, p, s) } else { Err(bad("HandleSlice")) },
+                Un::InternedSlice => if let V::HandleSlice(h) = &self.v {
+                    let idx = sr_open(&SR_ENC);
+                    occ_push::<[Dyn]>(p, 1, h);
+                    let at = io_wlen();
+                    let r = h.encode(e, p, s);
+                    sr_leaf(&SR_ENC, idx, at);
+                    r
+                } else { Err(bad("HandleSlice")) },
                 Un::Gs => { let k = self.seqn(2)?; GS { a: k[0].clone(), skipped: 0xDEAD, b: k[1].clone() }.encode(e, p, s) }
                 Un::Ge => if let V::Variant(i, f) = &self.v {
                     match i {
@@ -714,9 +764,18 @@ impl Decode for Dyn {
                 Leaf::TupleStruct => from_tuples(TupleS::decode(d, p, s)?),
                 Leaf::Enum => from_en(En::decode(d, p, s)?),
                 Leaf::BigEnum => from_big(Big::decode(d, p, s)?),
-                Leaf::IStr => V::HandleStr(Interned::<str>::decode(d, p, s)?),
-                Leaf::IPath => V::HandlePath(Interned::<Path>::decode(d, p, s)?),
-                Leaf::IString => V::HandleString(Interned::<String>::decode(d, p, s)?),
+                Leaf::IStr | Leaf::IPath | Leaf::IString | Leaf::IW => {
+                    let idx = sr_open(&SR_DEC);
+                    let at = io_rpos();
+                    let r = match l {
+                        Leaf::IStr => Interned::<str>::decode(d, p, s).map(V::HandleStr),
+                        Leaf::IPath => Interned::<Path>::decode(d, p, s).map(V::HandlePath),
+                        Leaf::IString => Interned::<String>::decode(d, p, s).map(V::HandleString),
+                        _ => Interned::<W>::decode(d, p, s).map(V::HandleW),
+                    };
+                    sr_leaf(&SR_DEC, idx, at);
+                    r?
+                }
                 #[cfg(feature = "extras")]
                 Leaf::BvUsizeLsb0 => from_bv(bitvec::vec::BitVec::<usize, bitvec::order::Lsb0>::decode(d, p, s)?),
                 #[cfg(feature = "extras")]
@@ -779,7 +838,13 @@ impl Decode for Dyn {
                     sr_close(&SR_DEC, idx, DEC_CALLS.with(|c| c.get()) != before);
                     V::Handle(r?)
                 }
-                Un::InternedSlice => V::HandleSlice(with_frame(one(t), || Interned::<[Dyn]>::decode(d, p, s))?),
+                Un::InternedSlice => {
+                    let idx = sr_open(&SR_DEC);
+                    let at = io_rpos();
+                    let r = with_frame(one(t), || Interned::<[Dyn]>::decode(d, p, s));
+                    sr_leaf(&SR_DEC, idx, at);
+                    V::HandleSlice(r?)
+                }
                 Un::Gs => {
                     let g = with_frame(one(t), || GS::<Dyn>::decode(d, p, s))?;
                     if g.skipped != 0 { V::Bad("GS: skipped field not Default".into()) } else { V::Seq(vec![g.a, g.b]) }
@@ -998,7 +1063,7 @@ pub fn leaf_classes(l: Leaf) -> (Vec<std::string::String>, Vec<std::string::Stri
         Named | TupleStruct => (sv(&["zero", "mixed", "max"]), sv(&["zero", "mixed"]), "mixed".into()),
         Enum => (sv(&["a", "b", "c", "d", "e"]), sv(&["a", "c"]), "b".into()),
         BigEnum => (sv(&["v0", "v1", "v126", "v127", "v128", "v129", "v130", "v131"]), sv(&["v0", "v127", "v129"]), "v128".into()),
-        IStr | IPath | IString => (sv(&["dupempty", "dup", "intern", "internmb"]), sv(&["dup", "intern"]), "intern".into()),
+        IStr | IPath | IString | IW => (sv(&["dupempty", "dup", "intern", "internmb"]), sv(&["dup", "intern"]), "intern".into()),
         BvUsizeLsb0 | BvU8Lsb0 | BvU8Msb0 | BvU16Lsb0 | BvU32Msb0 | BvU64Lsb0 => (sv(BV_CLASSES), sv(&["empty", "nine", "alt130"]), "nine".into()),
         _ => unreachable!(),
     }
@@ -1178,12 +1243,13 @@ impl<'a> Gen<'a> {
                     i => V::RawVariant(i, vec![]),
                 }
             }
-            IStr | IPath | IString => {
+            IStr | IPath | IString | IW => {
                 let s = match class { "dupempty" => std::string::String::new(), "internmb" => self.string_for("multibyte", salt)?, _ => self.string_for(if l == IPath { "dots" } else { "ascii" }, salt)? };
                 let dup = class.starts_with("dup");
                 match l {
                     IStr => V::HandleStr(if dup { Interned::new_duplicating_unsized(s) } else { self.interner.intern_unsized::<str, std::string::String>(s) }),
                     IPath => V::HandlePath(if dup { Interned::new_duplicating_unsized(std::path::PathBuf::from(s)) } else { self.interner.intern_unsized::<Path, std::path::PathBuf>(std::path::PathBuf::from(s)) }),
+                    IW => V::HandleW(if dup { Interned::new_duplicating(W(s)) } else { self.interner.intern(W(s)) }),
                     _ => V::HandleString(if dup { Interned::new_duplicating(s) } else { self.interner.intern(s) }),
                 }
             }
@@ -1229,7 +1295,8 @@ impl<'a> Gen<'a> {
         match &*ty {
             Ty::Leaf(l) => self.leaf(*l, &ty, c, salt),
             Ty::Tup(_) => {
-                let kids = t.kids.iter().enumerate().map(|(i, k)| self.make(k, if i == 0 { salt } else { salt * 5 + i as u32 })).collect::<Result<Vec<_>, _>>()?;
+                // class "eq": every position from the same perturbation (equal classes => equal content across leaf types)
+                let kids = t.kids.iter().enumerate().map(|(i, k)| self.make(k, if i == 0 || c == "eq" { salt } else { salt * 5 + i as u32 })).collect::<Result<Vec<_>, _>>()?;
                 Ok(Dyn::new(&ty, V::Seq(kids)))
             }
             Ty::Un(u, _) => {
@@ -1330,6 +1397,13 @@ pub struct World {
     dec: PostcardDecoder<SharedR>,
     /// end offset of every encoded top-level value
     pub ends: Vec<usize>,
+    /// handle occurrences (type tag, content hash) of every encoded top-level value, in wire order
+    pub occ: Vec<Vec<(u8, Compact128)>>,
+    /// top-level decodes started so far (= index into `ends` / `occ` of the next decode)
+    pub ndec: usize,
+    /// set by a decode that panicked inside a handle: which occurrence, and whether an earlier occurrence
+    /// of the same (type, hash) exists in the same top-level value (= the wire is self-contained there)
+    pub last_ref: Option<J>,
 }
 
 fn panic_msg(e: Box<dyn std::any::Any + Send>) -> String {
@@ -1350,7 +1424,7 @@ impl World {
             interner, plugin,
             enc: PostcardEncoder::new(SharedW(buf.clone())),
             dec: PostcardDecoder::new(SharedR { buf: buf.clone(), pos: rpos.clone() }),
-            buf, rpos, ends: vec![],
+            buf, rpos, ends: vec![], occ: vec![], ndec: 0, last_ref: None,
         }
     }
     /// a fresh interner on the decode/encode plugin (process restart / other interner)
@@ -1359,22 +1433,40 @@ impl World {
         self.plugin.insert(self.interner.clone());
     }
     pub fn len(&self) -> usize { self.buf.borrow().len() }
+    fn bind_io(&self) { IO.with(|c| *c.borrow_mut() = Some((self.buf.clone(), self.rpos.clone()))); }
     pub fn encode(&mut self, v: &Dyn) -> (Outcome<()>, usize, String) {
         reset_tls();
+        self.bind_io();
         let (enc, plugin) = (&mut self.enc, &self.plugin);
         let r = std::panic::catch_unwind(std::panic::AssertUnwindSafe(|| enc.encode(v, plugin)));
         let end = self.len();
         let sr = take_sr_enc();
-        let o = match r { Ok(Ok(())) => { self.ends.push(end); Outcome::Ok(()) } Ok(Err(e)) => Outcome::Err(e.to_string()), Err(p) => Outcome::Panic(panic_msg(p)) };
+        let occ = take_enc_occ();
+        let o = match r { Ok(Ok(())) => { self.ends.push(end); self.occ.push(occ); Outcome::Ok(()) } Ok(Err(e)) => Outcome::Err(e.to_string()), Err(p) => Outcome::Panic(panic_msg(p)) };
         (o, end, sr)
     }
     pub fn decode(&mut self, ty: &Arc<Ty>) -> (Outcome<Dyn>, usize, String) {
         reset_tls();
+        self.bind_io();
         let (dec, plugin) = (&mut self.dec, &self.plugin);
         let r = std::panic::catch_unwind(std::panic::AssertUnwindSafe(|| with_frame(vec![ty.clone()], || dec.decode::<Dyn>(plugin))));
         let sr = take_sr_dec();
         reset_tls();
         let o = match r { Ok(Ok(v)) => Outcome::Ok(v), Ok(Err(e)) => Outcome::Err(e.to_string()), Err(p) => Outcome::Panic(panic_msg(p)) };
+        self.last_ref = None;
+        if let (Outcome::Panic(_), Some(occ)) = (&o, self.occ.get(self.ndec)) {
+            // the handle being decoded when the panic struck is the one opened last (decode visits the handle
+            // occurrences in the order encode wrote them)
+            if let Some(k) = sr.len().checked_sub(1) {
+                if let Some(&(tag, h)) = occ.get(k) {
+                    let inline_before = occ[..k].iter().any(|&(t2, h2)| t2 == tag && h2 == h);
+                    let other_type_before = occ[..k].iter().any(|&(t2, h2)| t2 != tag && h2 == h);
+                    self.last_ref = Some(json!({"occurrence": k + 1, "of": occ.len(), "type": OCC_TYPES[tag as usize],
+                        "inline_before": inline_before, "same_hash_other_type_before": other_type_before}));
+                }
+            }
+        }
+        self.ndec += 1;
         (o, self.rpos.get(), sr)
     }
 }
@@ -1384,17 +1476,36 @@ impl World {
 // ---------------------------------------------------------------------------
 
 /// interned pool value: a tuple of handles; handle id -> kids; id -> how the
-/// ORIGINAL was created (intern: registered in the world's interner, dup: not)
+/// ORIGINAL was created (intern: registered in the world's interner, dup: not);
+/// optionally id -> Rust type of the handle ("D" = `Interned<Dyn>` (default), "S" =
+/// `Interned<str>`, "T" = `Interned<String>`, "W" = `Interned<W>`) and id -> content
+/// hash class: handles with the same class have the SAME text, hence (for S/T/W)
+/// the same 128-bit content hash under different types.
 pub fn build_handles(w: &World, spec: &J) -> Result<Dyn, String> {
     let top: Vec<u64> = spec["top"].as_array().ok_or("h.top")?.iter().filter_map(|x| x.as_u64()).collect();
     fn handle(w: &World, spec: &J, id: u64, memo: &mut HashMap<u64, Dyn>) -> Result<Dyn, String> {
         if let Some(d) = memo.get(&id) { return Ok(d.clone()); }
         let kids: Vec<u64> = spec["kids"][id.to_string()].as_array().map(|a| a.iter().filter_map(|x| x.as_u64()).collect()).unwrap_or_default();
-        let mut fields = vec![Dyn { ty: Arc::new(Ty::Leaf(Leaf::String)), v: V::Str(format!("h{}", id)) }];
+        let how = spec["reg"][id.to_string()].as_str().unwrap_or("intern");
+        let hty = spec["ty"][id.to_string()].as_str().unwrap_or("D");
+        let text = match &spec["hash"][id.to_string()] { J::String(x) => format!("h{}", x), J::Number(n) => format!("h{}", n), _ => format!("h{}", id) };
+        if hty != "D" {
+            if !kids.is_empty() { return Err(format!("handle {} of leaf type {} with kids", id, hty)); }
+            let dup = how == "dup";
+            let (leaf, v) = match hty {
+                "S" => (Leaf::IStr, V::HandleStr(if dup { Interned::new_duplicating_unsized(text) } else { w.interner.intern_unsized::<str, String>(text) })),
+                "T" => (Leaf::IString, V::HandleString(if dup { Interned::new_duplicating(text) } else { w.interner.intern(text) })),
+                "W" => (Leaf::IW, V::HandleW(if dup { Interned::new_duplicating(W(text)) } else { w.interner.intern(W(text)) })),
+                t => return Err(format!("unknown handle type {}", t)),
+            };
+            let d = Dyn { ty: Arc::new(Ty::Leaf(leaf)), v };
+            if !dup { memo.insert(id, d.clone()); }
+            return Ok(d);
+        }
+        let mut fields = vec![Dyn { ty: Arc::new(Ty::Leaf(Leaf::String)), v: V::Str(text) }];
         for k in kids { fields.push(handle(w, spec, k, memo)?); }
         let cty = Arc::new(Ty::Tup(fields.iter().map(|f| f.ty.clone()).collect()));
         let content = Dyn { ty: cty.clone(), v: V::Seq(fields) };
-        let how = spec["reg"][id.to_string()].as_str().unwrap_or("intern");
         let h = if how == "dup" { Interned::new_duplicating(content) } else { w.interner.intern(content) };
         let d = Dyn { ty: Arc::new(Ty::Un(Un::Interned, cty)), v: V::Handle(h) };
         // a `dup` handle is a fresh allocation at every occurrence; an interned one is shared anyway
@@ -1405,6 +1516,50 @@ pub fn build_handles(w: &World, spec: &J) -> Result<Dyn, String> {
     let hs = top.iter().map(|id| handle(w, spec, *id, &mut memo)).collect::<Result<Vec<_>, _>>()?;
     if hs.is_empty() || hs.len() > 12 { return Err("h.top arity".into()); }
     Ok(Dyn { ty: Arc::new(Ty::Tup(hs.iter().map(|h| h.ty.clone()).collect())), v: V::Seq(hs) })
+}
+
+/// Sharing per type inside ONE value: every interned handle, keyed by (Rust type, content),
+/// with the address of its allocation.  (mechanism level: `intern` returns the canonical
+/// allocation of a (type, hash) slot and a reference resolves to it)
+fn handles_of(d: &Dyn, out: &mut BTreeMap<(&'static str, String), BTreeSet<usize>>) {
+    fn addr<T: ?Sized>(h: &Interned<T>) -> usize { (&**h) as *const T as *const u8 as usize }
+    match &d.v {
+        V::Seq(x) | V::Set(x) | V::Variant(_, x) => for k in x { handles_of(k, out); },
+        V::Map(m) => for (k, v) in m { handles_of(k, out); handles_of(v, out); },
+        V::Opt(Some(b)) => handles_of(b, out),
+        V::Handle(h) => { out.entry(("Dyn", format!("{:?}", &**h))).or_default().insert(addr(h)); handles_of(&**h, out); }
+        V::HandleSlice(h) => { out.entry(("[Dyn]", format!("{:?}", &**h))).or_default().insert(addr(h)); for k in h.iter() { handles_of(k, out); } }
+        V::HandleStr(h) => { out.entry(("str", h.to_string())).or_default().insert(addr(h)); }
+        V::HandlePath(h) => { out.entry(("Path", format!("{:?}", &**h))).or_default().insert(addr(h)); }
+        V::HandleString(h) => { out.entry(("String", (**h).clone())).or_default().insert(addr(h)); }
+        V::HandleW(h) => { out.entry(("W", h.0.clone())).or_default().insert(addr(h)); }
+        _ => {}
+    }
+}
+/// (type, content) classes of `d` whose handles do not all share one allocation
+fn unshared(d: &Dyn) -> Vec<String> {
+    let mut m = BTreeMap::new();
+    handles_of(d, &mut m);
+    m.into_iter().filter(|(_, a)| a.len() > 1).map(|((t, c), a)| format!("Interned<{}> {:.40}: {} allocations", t, c, a.len())).collect()
+}
+
+/// The content hashes of equal text under the three leaf handle types, computed by the REAL hasher
+/// of the interner (`Interner::hash_128`), and the `STABLE_TYPE_ID`s: the premise of the cross-type cases.
+pub fn hash_collisions() -> J {
+    let i = new_interner();
+    let mut rows = vec![];
+    let mut all = true;
+    for text in ["ha", "hello", "", "h\u{e9}llo \u{2713}"] {
+        let (hs, ht, hw) = (i.hash_128::<str>(text), i.hash_128(&text.to_string()), i.hash_128(&W(text.to_string())));
+        let hp = i.hash_128::<Path>(Path::new(text));
+        let eq = hs == ht && ht == hw;
+        all &= eq;
+        rows.push(json!({"text": text, "str": format!("{:?}", hs), "String": format!("{:?}", ht), "W": format!("{:?}", hw), "Path": format!("{:?}", hp),
+            "str_eq_String_eq_W": eq, "Path_eq_str": hp == hs}));
+    }
+    let ids = [format!("{:?}", <str as Identifiable>::STABLE_TYPE_ID), format!("{:?}", <String as Identifiable>::STABLE_TYPE_ID), format!("{:?}", <W as Identifiable>::STABLE_TYPE_ID)];
+    let distinct_ids = ids[0] != ids[1] && ids[1] != ids[2] && ids[0] != ids[2];
+    json!({"equal_hash_str_String_W": all, "distinct_type_ids": distinct_ids, "type_ids": ids, "rows": rows})
 }
 
 fn leaves_of(t: &Ty, out: &mut BTreeSet<String>) {
@@ -1438,6 +1593,13 @@ pub fn run_behaviour(pool_spec: &[J], ops: &[J], seed: u64) -> J {
             Err(e) => return json!({"ok": false, "tool_error": format!("cannot build pool value: {}", e)}),
         }
     }
+    // Sharing is only promised among handles that came from `Interner::intern*`: an original made with
+    // new_duplicating lives on inside registered originals (and in decoded values `intern` resolved to them).
+    fn has_dup(p: &J) -> bool {
+        fn term(t: &J) -> bool { t.as_array().map(|a| a.get(1).map(|c| class_string(c).starts_with("dup")).unwrap_or(false) || a.iter().skip(2).any(term)).unwrap_or(false) }
+        if !p["t"].is_null() { term(&p["t"]) } else { p["h"]["reg"].as_object().map(|m| m.values().any(|v| v == "dup")).unwrap_or(false) }
+    }
+    let all_registered = !pool_spec.iter().any(has_dup);
     let mut steps = vec![];
     let mut fail: Option<J> = None;
     let mut drift: Vec<J> = vec![];
@@ -1491,6 +1653,10 @@ pub fn run_behaviour(pool_spec: &[J], ops: &[J], seed: u64) -> J {
                 if hq != Some(want_i) { drift.push(json!({"step": si + 1, "what": "FIFO head", "model": want_i, "harness_queue": hq})); }
                 if ok { if let Some(m) = x["sr"].as_str() { if m != sr { drift.push(json!({"step": si + 1, "what": "inline/reference pattern at decode", "model": m, "impl": sr})); } } }
                 if ok && model_fail { drift.push(json!({"step": si + 1, "what": "model predicted a decode failure, implementation succeeded"})); }
+                if let (Outcome::Ok(d), true) = (&o, all_registered) {
+                    let u = unshared(d);
+                    if ok && !u.is_empty() { drift.push(json!({"step": si + 1, "what": "sharing per type: equal (type, content) handles of one decoded value are different allocations", "impl": u})); }
+                }
                 if let Outcome::Ok(d) = o { kept.push(d); }
                 if !ok {
                     let mut ls = BTreeSet::new();
@@ -1498,7 +1664,7 @@ pub fn run_behaviour(pool_spec: &[J], ops: &[J], seed: u64) -> J {
                     fail = Some(json!({"step": si + 1, "kind": kind, "v": want_i, "ty": tys[want_i - 1].show(), "ctors": ls,
                         "value": short_dbg(&pool_txt[want_i - 1]), "got": got, "pos": pos, "want_end": want_end,
                         "bytes": w.buf.borrow()[(if want_pos >= 2 { w.ends[want_pos - 2] } else { 0 })..want_end].iter().take(64).map(|b| format!("{:02x}", b)).collect::<String>(),
-                        "model_fail": model_fail}));
+                        "model_fail": model_fail, "ref": w.last_ref}));
                     break;
                 }
             }
